@@ -54,6 +54,15 @@ CHECKS = {
         "Recording wraps module attributes (no hook); thresholds within 2e-4 of a cut are not judged.",
         "DESIGN.md 5/C10",
     ),
+    "C11": (
+        "direct Hypothesis generation of solution objects over shipped and generated catalogues, every permutation of the copy order, predicate oracle",
+        "Multisets of 0-6 major alleles (fusion partials, added core/silent variants, drawn minors) over toy, CYP2D6, CYP2A6, CYP2C19, GSTM1 and "
+        "generated catalogues with tandem rules are arranged by estimate_diplotype in every permutation (<= 4 copies) or 24 drawn ones; checked: "
+        "index partition, deletion placeholders exactly for missing haplotypes of genes with a deletion allele, non-empty haplotypes, rendered "
+        "names, tandem adjacency, natural order within/between haplotypes, permutation independence for <= 2 copies.",
+        "Tandem clause judged only for non-competing rules; display_format names are not parsed.",
+        "DESIGN.md 5/C11",
+    ),
     "C16": (
         "Hypothesis-generated VCF files planting catalogued alleles as standard left-anchored records; expected-evidence oracle + end-to-end call",
         "One or two catalogued alleles of a generated database are written as VCF records (SNP, deletion, insertion, MNP as one record or as "
